@@ -4,9 +4,11 @@
 package c04
 
 import (
+	"bytes"
 	"context"
 	"encoding/xml"
 	"fmt"
+	"reflect"
 	"strings"
 	"testing"
 
@@ -72,6 +74,22 @@ func containerOrder(items []osmdoc.Item) []osmdoc.Item {
 
 // ---------------------------------------------------------------- single objects
 
+// byValue marshals the value v points to (instead of the pointer) and requires
+// the same text: every marshal method has a value receiver, so a value that is
+// not addressable (a struct field, a dereferenced pointer) must not take a
+// different encoding path.
+func byValue(v any, data []byte, what string) error {
+	val := reflect.ValueOf(v).Elem().Interface()
+	d2, err := xml.Marshal(val)
+	if err != nil {
+		return harness.Failf("C04/marshal-error", "%s passed by value does not marshal: %v", what, err)
+	}
+	if !bytes.Equal(d2, data) {
+		return harness.Failf("C04/by-value-differs", "%s marshals differently by value and by pointer:\n by value   %s\n by pointer %s", what, d2, data)
+	}
+	return nil
+}
+
 type ElemCase struct{ Item osmdoc.Item }
 
 func checkElem(c ElemCase) error {
@@ -97,6 +115,9 @@ func checkElem(c ElemCase) error {
 	if err != nil {
 		return harness.Failf("C04/marshal-error", "%s does not marshal: %v", it.Kind(), err)
 	}
+	if err := byValue(v, data, it.Kind()); err != nil {
+		return err
+	}
 	if err := xml.Unmarshal(data, back); err != nil {
 		return harness.Failf("C04/unmarshal-error", "own output of %s does not unmarshal: %v\n%s", it.Kind(), err, data)
 	}
@@ -115,7 +136,7 @@ func checkElem(c ElemCase) error {
 func TestElements(t *testing.T) {
 	harness.Run(t, harness.Spec[ElemCase]{
 		Name: "elements", N: 6000,
-		Rule:  "single Node, Way (way-node versions/changesets/locations, updates, bounds, committed), Relation (member annotations incl. orientation and nested nodes, updates, bounds, committed), Changeset (tags, discussion), Note (comments, whole-second dates), User and Bounds values with XML-representable strings (tabs, newlines, carriage returns, leading/trailing blanks, markup characters, astral runes), finite floats, UTC times down to nanoseconds; oracle = Unmarshal(Marshal(v)) equals the model field for field and the streaming scanner decodes the same object from the text; non-trivial = value with at least one optional slice/pointer populated",
+		Rule:  "single Node, Way (way-node versions/changesets/locations, updates, bounds, committed), Relation (member annotations incl. orientation and nested nodes, updates, bounds, committed), Changeset (tags, discussion), Note (comments, whole-second dates), User and Bounds values with XML-representable strings (tabs, newlines, carriage returns, leading/trailing blanks, markup characters, astral runes), finite floats, UTC times down to nanoseconds; oracle = Unmarshal(Marshal(v)) equals the model field for field, marshalling the value instead of the pointer gives the same text (also for the OSM, Change and Diff containers), and the streaming scanner decodes the same object from the text; non-trivial = value with at least one optional slice/pointer populated",
 		Gen:   func(t *rapid.T) ElemCase { return ElemCase{Item: osmdoc.GenItem(t, osmdoc.GenOpt{}, "nwrcNub")} },
 		Check: checkElem,
 		Classify: func(c ElemCase) (bool, []string) {
@@ -151,6 +172,9 @@ func checkOSM(c OSMCase) error {
 	data, err := xml.Marshal(v)
 	if err != nil {
 		return harness.Failf("C04/marshal-error", "OSM does not marshal: %v", err)
+	}
+	if err := byValue(v, data, "OSM"); err != nil {
+		return err
 	}
 	var back osm.OSM
 	if err := xml.Unmarshal(data, &back); err != nil {
@@ -225,6 +249,9 @@ func checkChange(c ChangeCase) error {
 	data, err := xml.Marshal(v)
 	if err != nil {
 		return harness.Failf("C04/marshal-error", "Change does not marshal: %v", err)
+	}
+	if err := byValue(v, data, "Change"); err != nil {
+		return err
 	}
 	var back osm.Change
 	if err := xml.Unmarshal(data, &back); err != nil {
@@ -319,6 +346,9 @@ func checkDiff(c DiffCase) error {
 	data, err := xml.Marshal(v)
 	if err != nil {
 		return harness.Failf("C04/marshal-error", "Diff does not marshal: %v", err)
+	}
+	if err := byValue(v, data, "Diff"); err != nil {
+		return err
 	}
 	var back osm.Diff
 	if err := xml.Unmarshal(data, &back); err != nil {
